@@ -54,7 +54,7 @@ pub unsafe fn stub_sub_bytes(block: __m128i, sbox: &[u8; 256]) -> __m128i {
 
 // ---------------------------------------------------------------------------------------------------------- leaves
 
-//@ harness name=kuz_leaf_consts prop=C07,C20 tier=quick bits=16 est=60 desc="L: P[x] == pi(x), P_INV[x] == pi^-1(x), pi^-1(pi(x)) == x == pi(pi^-1(x)) for all octets x; KEYGEN[i] == C_{i+1} = L(Vec128(i+1)) for symbolic i in 0..32 (field arithmetic of the oracle computed)"
+//@ harness name=kuz_leaf_consts prop=C07,C20 tier=quick bits=16 est=45 desc="L: P[x] == pi(x), P_INV[x] == pi^-1(x), pi^-1(pi(x)) == x == pi(pi^-1(x)) for all octets x; KEYGEN[i] == C_{i+1} = L(Vec128(i+1)) for symbolic i in 0..32 (field arithmetic of the oracle computed)"
 verif_harness! {
     name: kuz_leaf_consts,
     bytes: 2,
@@ -68,7 +68,7 @@ verif_harness! {
     }
 }
 
-//@ harness name=kuz_leaf_sub_bytes prop=C07,C20 tier=quick bits=128 est=30 desc="L: sub_bytes(b, &P) == oracle S(b) and sub_bytes(b, &P_INV) == oracle S^-1(b) for all 2^128 b"
+//@ harness name=kuz_leaf_sub_bytes prop=C07,C20 tier=quick bits=128 est=31 desc="L: sub_bytes(b, &P) == oracle S(b) and sub_bytes(b, &P_INV) == oracle S^-1(b) for all 2^128 b"
 verif_harness! {
     name: kuz_leaf_sub_bytes,
     bytes: 16,
@@ -85,7 +85,7 @@ fn row_ptr(t: &Table, p: usize, v: usize) -> *const __m128i {
     unsafe { t.0.as_ptr().add(4096 * p + 16 * v) as *const __m128i }
 }
 
-//@ harness name=kuz_leaf_rows prop=C07,C20 tier=quick bits=12 est=250 desc="L: every row of the fused tables, read with _mm_load_si128 at &T[4096 p + 16 v]: ENC_TABLE row == L(pi(v) at octet p, 0 elsewhere) and DEC_TABLE row == L^-1(pi^-1(v) at octet p, 0 elsewhere), position p and octet v symbolic (all 2 x 4096 rows)"
+//@ harness name=kuz_leaf_rows prop=C07,C20 tier=quick bits=12 est=270 desc="L: every row of the fused tables, read with _mm_load_si128 at &T[4096 p + 16 v]: ENC_TABLE row == L(pi(v) at octet p, 0 elsewhere) and DEC_TABLE row == L^-1(pi^-1(v) at octet p, 0 elsewhere), position p and octet v symbolic (all 2 x 4096 rows)"
 verif_harness! {
     name: kuz_leaf_rows,
     bytes: 2,
@@ -111,7 +111,7 @@ pub unsafe fn stub_load(p: *const __m128i) -> __m128i {
     core::mem::transmute::<u128, __m128i>(uf_load::call(p as usize))
 }
 
-//@ harness name=kuz_leaf_transform_flow prop=C07,C20 tier=quick bits=129 stub=1 est=45 desc="L: data flow of transform for all 2^128 b and both tables: transform(b, &T) == XOR over octet positions p of load(&T[4096 p + 16 b_p]), the 128-bit load being an uninterpreted function of its address; includes the alignment debug_assert and the in-bounds pointer arithmetic of all sixteen loads"
+//@ harness name=kuz_leaf_transform_flow prop=C07,C20 tier=quick bits=129 stub=1 est=41 desc="L: data flow of transform for all 2^128 b and both tables: transform(b, &T) == XOR over octet positions p of load(&T[4096 p + 16 b_p]), the 128-bit load being an uninterpreted function of its address; includes the alignment debug_assert and the in-bounds pointer arithmetic of all sixteen loads"
 verif_harness! {
     name: kuz_leaf_transform_flow,
     bytes: 17,
@@ -133,7 +133,7 @@ verif_harness! {
 
 // ---------------------------------------------------------------------------------------------------------- wiring: encryption
 
-//@ harness name=kuz_sse2_keys prop=C07,C20 tier=quick bits=256 stub=1 est=120 desc="W: round keys of KuznyechikEnc::new(key) (expand_enc_keys) == oracle K1..K10 (Feistel key schedule with C_1..C_32), all 2^256 keys"
+//@ harness name=kuz_sse2_keys prop=C07,C20 tier=thorough bits=256 stub=1 est=120 mem=30 cap=3600 desc="W: round keys of KuznyechikEnc::new(key) (expand_enc_keys) == oracle K1..K10 (Feistel key schedule with C_1..C_32), all 2^256 keys"
 verif_harness! {
     name: kuz_sse2_keys,
     bytes: 32,
@@ -141,7 +141,7 @@ verif_harness! {
     stubs: [(crate::sse2::backends::transform, stub_transform), (crate::sse2::backends::sub_bytes, stub_sub_bytes)],
     prop: |inp| { k::w_keys(inp) }
 }
-//@ harness name=kuz_sse2_enc_key prop=C07,C03,C12,C20 tier=quick bits=384 stub=1 est=200 desc="W: KuznyechikEnc::new(key).encrypt_block(b) == oracle E(key schedule(key), b), all keys, all blocks"
+//@ harness name=kuz_sse2_enc_key prop=C07,C03,C12,C20 tier=thorough bits=384 stub=1 est=200 mem=30 cap=3600 desc="W: KuznyechikEnc::new(key).encrypt_block(b) == oracle E(key schedule(key), b), all keys, all blocks"
 verif_harness! {
     name: kuz_sse2_enc_key,
     bytes: 48,
@@ -149,7 +149,7 @@ verif_harness! {
     stubs: [(crate::sse2::backends::transform, stub_transform), (crate::sse2::backends::sub_bytes, stub_sub_bytes)],
     prop: |inp| { k::w_enc_key(inp, 0) }
 }
-//@ harness name=kuz_sse2_enc_key_both prop=C07,C03,C12,C20 tier=quick bits=384 stub=1 est=200 desc="W: Kuznyechik::new(key).encrypt_block(b) == oracle E(key schedule(key), b), all keys, all blocks"
+//@ harness name=kuz_sse2_enc_key_both prop=C07,C03,C12,C20 tier=thorough bits=384 stub=1 est=200 mem=30 cap=3600 desc="W: Kuznyechik::new(key).encrypt_block(b) == oracle E(key schedule(key), b), all keys, all blocks"
 verif_harness! {
     name: kuz_sse2_enc_key_both,
     bytes: 48,
@@ -157,7 +157,7 @@ verif_harness! {
     stubs: [(crate::sse2::backends::transform, stub_transform), (crate::sse2::backends::sub_bytes, stub_sub_bytes)],
     prop: |inp| { k::w_enc_key(inp, 1) }
 }
-//@ harness name=kuz_sse2_enc_rk prop=C07,C03,C12,C20 tier=quick bits=1408 stub=1 est=60 desc="W: KuznyechikEnc over arbitrary round keys: encrypt_block == oracle E (9 LSX rounds + X), all round keys, all blocks"
+//@ harness name=kuz_sse2_enc_rk prop=C07,C03,C12,C20 tier=quick bits=1408 stub=1 est=57 desc="W: KuznyechikEnc over arbitrary round keys: encrypt_block == oracle E (9 LSX rounds + X), all round keys, all blocks"
 verif_harness! {
     name: kuz_sse2_enc_rk,
     bytes: 160 + 16,
@@ -165,7 +165,7 @@ verif_harness! {
     stubs: [(crate::sse2::backends::transform, stub_transform), (crate::sse2::backends::sub_bytes, stub_sub_bytes)],
     prop: |inp| { k::w_enc_rk(inp, Route::Enc) }
 }
-//@ harness name=kuz_sse2_enc_rk_clone prop=C12,C20 tier=quick bits=1408 stub=1 est=60 desc="W: clone of a KuznyechikEnc: encrypt_block == oracle E, all round keys, all blocks"
+//@ harness name=kuz_sse2_enc_rk_clone prop=C12,C20 tier=thorough bits=1408 stub=1 est=60 desc="W: clone of a KuznyechikEnc: encrypt_block == oracle E, all round keys, all blocks"
 verif_harness! {
     name: kuz_sse2_enc_rk_clone,
     bytes: 160 + 16,
@@ -173,7 +173,7 @@ verif_harness! {
     stubs: [(crate::sse2::backends::transform, stub_transform), (crate::sse2::backends::sub_bytes, stub_sub_bytes)],
     prop: |inp| { k::w_enc_rk(inp, Route::EncClone) }
 }
-//@ harness name=kuz_sse2_enc_rk_val prop=C12,C03,C20 tier=quick bits=1408 stub=1 est=60 desc="W: Kuznyechik::from(enc) (by value): encrypt_block == oracle E, all round keys, all blocks"
+//@ harness name=kuz_sse2_enc_rk_val prop=C12,C03,C20 tier=thorough bits=1408 stub=1 est=60 desc="W: Kuznyechik::from(enc) (by value): encrypt_block == oracle E, all round keys, all blocks"
 verif_harness! {
     name: kuz_sse2_enc_rk_val,
     bytes: 160 + 16,
@@ -181,7 +181,7 @@ verif_harness! {
     stubs: [(crate::sse2::backends::transform, stub_transform), (crate::sse2::backends::sub_bytes, stub_sub_bytes)],
     prop: |inp| { k::w_enc_rk(inp, Route::Val) }
 }
-//@ harness name=kuz_sse2_enc_rk_ref prop=C12,C03,C20 tier=quick bits=1408 stub=1 est=60 desc="W: Kuznyechik::from(&enc) (by reference): encrypt_block == oracle E, all round keys, all blocks"
+//@ harness name=kuz_sse2_enc_rk_ref prop=C12,C03,C20 tier=thorough bits=1408 stub=1 est=60 desc="W: Kuznyechik::from(&enc) (by reference): encrypt_block == oracle E, all round keys, all blocks"
 verif_harness! {
     name: kuz_sse2_enc_rk_ref,
     bytes: 160 + 16,
@@ -189,7 +189,7 @@ verif_harness! {
     stubs: [(crate::sse2::backends::transform, stub_transform), (crate::sse2::backends::sub_bytes, stub_sub_bytes)],
     prop: |inp| { k::w_enc_rk(inp, Route::Ref) }
 }
-//@ harness name=kuz_sse2_enc_rk_valclone prop=C12,C20 tier=quick bits=1408 stub=1 est=60 desc="W: Kuznyechik::from(enc).clone(): encrypt_block == oracle E, all round keys, all blocks"
+//@ harness name=kuz_sse2_enc_rk_valclone prop=C12,C20 tier=thorough bits=1408 stub=1 est=60 desc="W: Kuznyechik::from(enc).clone(): encrypt_block == oracle E, all round keys, all blocks"
 verif_harness! {
     name: kuz_sse2_enc_rk_valclone,
     bytes: 160 + 16,
@@ -197,7 +197,7 @@ verif_harness! {
     stubs: [(crate::sse2::backends::transform, stub_transform), (crate::sse2::backends::sub_bytes, stub_sub_bytes)],
     prop: |inp| { k::w_enc_rk(inp, Route::ValClone) }
 }
-//@ harness name=kuz_sse2_enc_rk_refclone prop=C12,C20 tier=quick bits=1408 stub=1 est=60 desc="W: Kuznyechik::from(&enc).clone(): encrypt_block == oracle E, all round keys, all blocks"
+//@ harness name=kuz_sse2_enc_rk_refclone prop=C12,C20 tier=thorough bits=1408 stub=1 est=60 desc="W: Kuznyechik::from(&enc).clone(): encrypt_block == oracle E, all round keys, all blocks"
 verif_harness! {
     name: kuz_sse2_enc_rk_refclone,
     bytes: 160 + 16,
@@ -208,7 +208,7 @@ verif_harness! {
 
 // ---------------------------------------------------------------------------------------------------------- wiring: decryption
 
-//@ harness name=kuz_sse2_dec_rk_val prop=C07,C03,C12,C20 tier=quick bits=1408 stub=1 est=200 desc="W: KuznyechikDec::from(enc) (by value, real inv_enc_keys) over arbitrary encryption round keys: decrypt_block == oracle D = X[K1] S^-1 L^-1 X[K2] ... S^-1 L^-1 X[K10], all round keys, all blocks (linearity instances of L^-1 assumed, lemma kuz_lin_linv)"
+//@ harness name=kuz_sse2_dec_rk_val prop=C07,C03,C12,C20 tier=quick bits=1408 stub=1 est=250 desc="W: KuznyechikDec::from(enc) (by value, real inv_enc_keys) over arbitrary encryption round keys: decrypt_block == oracle D = X[K1] S^-1 L^-1 X[K2] ... S^-1 L^-1 X[K10], all round keys, all blocks (linearity instances of L^-1 assumed, lemma kuz_lin_linv)"
 verif_harness! {
     name: kuz_sse2_dec_rk_val,
     bytes: 160 + 16,
@@ -216,7 +216,7 @@ verif_harness! {
     stubs: [(crate::sse2::backends::transform, stub_transform), (crate::sse2::backends::sub_bytes, stub_sub_bytes)],
     prop: |inp| { k::w_dec_rk(inp, Route::Val, false, true) }
 }
-//@ harness name=kuz_sse2_dec_rk_ref prop=C07,C03,C12,C20 tier=quick bits=1408 stub=1 est=200 desc="W: KuznyechikDec::from(&enc) (by reference): decrypt_block == oracle D, all round keys, all blocks"
+//@ harness name=kuz_sse2_dec_rk_ref prop=C07,C03,C12,C20 tier=thorough bits=1408 stub=1 est=200 desc="W: KuznyechikDec::from(&enc) (by reference): decrypt_block == oracle D, all round keys, all blocks"
 verif_harness! {
     name: kuz_sse2_dec_rk_ref,
     bytes: 160 + 16,
@@ -224,7 +224,7 @@ verif_harness! {
     stubs: [(crate::sse2::backends::transform, stub_transform), (crate::sse2::backends::sub_bytes, stub_sub_bytes)],
     prop: |inp| { k::w_dec_rk(inp, Route::Ref, false, true) }
 }
-//@ harness name=kuz_sse2_dec_rk_valclone prop=C12,C20 tier=quick bits=1408 stub=1 est=200 desc="W: KuznyechikDec::from(enc).clone(): decrypt_block == oracle D, all round keys, all blocks"
+//@ harness name=kuz_sse2_dec_rk_valclone prop=C12,C20 tier=thorough bits=1408 stub=1 est=200 desc="W: KuznyechikDec::from(enc).clone(): decrypt_block == oracle D, all round keys, all blocks"
 verif_harness! {
     name: kuz_sse2_dec_rk_valclone,
     bytes: 160 + 16,
@@ -232,7 +232,7 @@ verif_harness! {
     stubs: [(crate::sse2::backends::transform, stub_transform), (crate::sse2::backends::sub_bytes, stub_sub_bytes)],
     prop: |inp| { k::w_dec_rk(inp, Route::ValClone, false, true) }
 }
-//@ harness name=kuz_sse2_dec_rk_refclone prop=C12,C20 tier=quick bits=1408 stub=1 est=200 desc="W: KuznyechikDec::from(&enc).clone(): decrypt_block == oracle D, all round keys, all blocks"
+//@ harness name=kuz_sse2_dec_rk_refclone prop=C12,C20 tier=thorough bits=1408 stub=1 est=200 desc="W: KuznyechikDec::from(&enc).clone(): decrypt_block == oracle D, all round keys, all blocks"
 verif_harness! {
     name: kuz_sse2_dec_rk_refclone,
     bytes: 160 + 16,
@@ -240,7 +240,7 @@ verif_harness! {
     stubs: [(crate::sse2::backends::transform, stub_transform), (crate::sse2::backends::sub_bytes, stub_sub_bytes)],
     prop: |inp| { k::w_dec_rk(inp, Route::RefClone, false, true) }
 }
-//@ harness name=kuz_sse2_both_dec_rk_val prop=C07,C03,C12,C20 tier=quick bits=1408 stub=1 est=200 desc="W: Kuznyechik::from(enc) (by value): decrypt_block == oracle D, all round keys, all blocks"
+//@ harness name=kuz_sse2_both_dec_rk_val prop=C07,C03,C12,C20 tier=thorough bits=1408 stub=1 est=200 desc="W: Kuznyechik::from(enc) (by value): decrypt_block == oracle D, all round keys, all blocks"
 verif_harness! {
     name: kuz_sse2_both_dec_rk_val,
     bytes: 160 + 16,
@@ -248,7 +248,7 @@ verif_harness! {
     stubs: [(crate::sse2::backends::transform, stub_transform), (crate::sse2::backends::sub_bytes, stub_sub_bytes)],
     prop: |inp| { k::w_dec_rk(inp, Route::Val, true, true) }
 }
-//@ harness name=kuz_sse2_both_dec_rk_ref prop=C07,C03,C12,C20 tier=quick bits=1408 stub=1 est=200 desc="W: Kuznyechik::from(&enc) (by reference): decrypt_block == oracle D, all round keys, all blocks"
+//@ harness name=kuz_sse2_both_dec_rk_ref prop=C07,C03,C12,C20 tier=thorough bits=1408 stub=1 est=200 desc="W: Kuznyechik::from(&enc) (by reference): decrypt_block == oracle D, all round keys, all blocks"
 verif_harness! {
     name: kuz_sse2_both_dec_rk_ref,
     bytes: 160 + 16,
@@ -256,7 +256,7 @@ verif_harness! {
     stubs: [(crate::sse2::backends::transform, stub_transform), (crate::sse2::backends::sub_bytes, stub_sub_bytes)],
     prop: |inp| { k::w_dec_rk(inp, Route::Ref, true, true) }
 }
-//@ harness name=kuz_sse2_both_dec_rk_valclone prop=C12,C20 tier=quick bits=1408 stub=1 est=200 desc="W: Kuznyechik::from(enc).clone(): decrypt_block == oracle D, all round keys, all blocks"
+//@ harness name=kuz_sse2_both_dec_rk_valclone prop=C12,C20 tier=thorough bits=1408 stub=1 est=200 desc="W: Kuznyechik::from(enc).clone(): decrypt_block == oracle D, all round keys, all blocks"
 verif_harness! {
     name: kuz_sse2_both_dec_rk_valclone,
     bytes: 160 + 16,
@@ -264,7 +264,7 @@ verif_harness! {
     stubs: [(crate::sse2::backends::transform, stub_transform), (crate::sse2::backends::sub_bytes, stub_sub_bytes)],
     prop: |inp| { k::w_dec_rk(inp, Route::ValClone, true, true) }
 }
-//@ harness name=kuz_sse2_both_dec_rk_refclone prop=C12,C20 tier=quick bits=1408 stub=1 est=200 desc="W: Kuznyechik::from(&enc).clone(): decrypt_block == oracle D, all round keys, all blocks"
+//@ harness name=kuz_sse2_both_dec_rk_refclone prop=C12,C20 tier=thorough bits=1408 stub=1 est=200 desc="W: Kuznyechik::from(&enc).clone(): decrypt_block == oracle D, all round keys, all blocks"
 verif_harness! {
     name: kuz_sse2_both_dec_rk_refclone,
     bytes: 160 + 16,
@@ -272,7 +272,7 @@ verif_harness! {
     stubs: [(crate::sse2::backends::transform, stub_transform), (crate::sse2::backends::sub_bytes, stub_sub_bytes)],
     prop: |inp| { k::w_dec_rk(inp, Route::RefClone, true, true) }
 }
-//@ harness name=kuz_sse2_dec_key prop=C07,C03,C12,C20 tier=quick bits=384 stub=1 est=300 desc="W: KuznyechikDec::new(key).decrypt_block(b) == oracle D(key schedule(key), b), all keys, all blocks"
+//@ harness name=kuz_sse2_dec_key prop=C07,C03,C12,C20 tier=thorough bits=384 stub=1 est=300 mem=30 cap=3600 desc="W: KuznyechikDec::new(key).decrypt_block(b) == oracle D(key schedule(key), b), all keys, all blocks"
 verif_harness! {
     name: kuz_sse2_dec_key,
     bytes: 48,
@@ -280,7 +280,7 @@ verif_harness! {
     stubs: [(crate::sse2::backends::transform, stub_transform), (crate::sse2::backends::sub_bytes, stub_sub_bytes)],
     prop: |inp| { k::w_dec_key(inp, 0, true) }
 }
-//@ harness name=kuz_sse2_dec_key_both prop=C07,C03,C12,C20 tier=quick bits=384 stub=1 est=300 desc="W: Kuznyechik::new(key).decrypt_block(b) == oracle D(key schedule(key), b), all keys, all blocks"
+//@ harness name=kuz_sse2_dec_key_both prop=C07,C03,C12,C20 tier=thorough bits=384 stub=1 est=300 mem=30 cap=3600 desc="W: Kuznyechik::new(key).decrypt_block(b) == oracle D(key schedule(key), b), all keys, all blocks"
 verif_harness! {
     name: kuz_sse2_dec_key_both,
     bytes: 48,
@@ -291,7 +291,7 @@ verif_harness! {
 
 // ---------------------------------------------------------------------------------------------------------- round trips
 
-//@ harness name=kuz_sse2_rt_enc_dec prop=C01,C20 tier=quick bits=1408 stub=1 est=200 desc="W: KuznyechikEnc encrypts, KuznyechikDec::from(&enc) decrypts: result == b, arbitrary round keys, all blocks (S, L uninterpreted inverse pairs)"
+//@ harness name=kuz_sse2_rt_enc_dec prop=C01,C20 tier=thorough bits=1408 stub=1 est=200 desc="W: KuznyechikEnc encrypts, KuznyechikDec::from(&enc) decrypts: result == b, arbitrary round keys, all blocks (S, L uninterpreted inverse pairs)"
 verif_harness! {
     name: kuz_sse2_rt_enc_dec,
     bytes: 160 + 16,
@@ -299,7 +299,7 @@ verif_harness! {
     stubs: [(crate::sse2::backends::transform, stub_transform), (crate::sse2::backends::sub_bytes, stub_sub_bytes)],
     prop: |inp| { k::w_roundtrip_rk(inp, 0, true) }
 }
-//@ harness name=kuz_sse2_rt_ed prop=C01,C20 tier=quick bits=1408 stub=1 est=200 desc="W: Kuznyechik::from(&enc): dec(enc(b)) == b, arbitrary round keys, all blocks"
+//@ harness name=kuz_sse2_rt_ed prop=C01,C20 tier=quick bits=1408 stub=1 est=221 desc="W: Kuznyechik::from(&enc): dec(enc(b)) == b, arbitrary round keys, all blocks"
 verif_harness! {
     name: kuz_sse2_rt_ed,
     bytes: 160 + 16,
@@ -307,7 +307,7 @@ verif_harness! {
     stubs: [(crate::sse2::backends::transform, stub_transform), (crate::sse2::backends::sub_bytes, stub_sub_bytes)],
     prop: |inp| { k::w_roundtrip_rk(inp, 1, true) }
 }
-//@ harness name=kuz_sse2_rt_de prop=C01,C20 tier=quick bits=1408 stub=1 est=200 desc="W: Kuznyechik::from(&enc): enc(dec(b)) == b, arbitrary round keys, all blocks"
+//@ harness name=kuz_sse2_rt_de prop=C01,C20 tier=thorough bits=1408 stub=1 est=200 desc="W: Kuznyechik::from(&enc): enc(dec(b)) == b, arbitrary round keys, all blocks"
 verif_harness! {
     name: kuz_sse2_rt_de,
     bytes: 160 + 16,
